@@ -207,6 +207,14 @@ func (fv *FnV) freshRef(st *State, hint string) string {
 
 func (fv *FnV) zeroInit(st *State, p *Ptr, t types.Type) {
 	g := fv.g
+	if p.kind == pPlain {
+		switch t.String() {
+		case "sync.Mutex", "sync.RWMutex":
+			fv.heapSet(st, "G|held", sto(fv.heapGet(st, "G|held"), p.ref, "0"))
+		case "sync.WaitGroup":
+			fv.heapSet(st, "G|wg", sto(fv.heapGet(st, "G|wg"), p.ref, "0"))
+		}
+	}
 	if s, ok := isStruct(t); ok {
 		for i := 0; i < s.NumFields(); i++ {
 			f := s.Field(i)
@@ -301,6 +309,7 @@ func (fv *FnV) doInstr(st *State, ins ssa.Instruction) error {
 			fv.safety(st, "nil", not(eq(p.ref, "nil!ref")), ins.Pos())
 		}
 		fv.checkLent(ins.Addr, ins.Pos(), "write")
+		fv.guardedAccess(st, ins.Addr, ins.Pos(), "write")
 		fv.storeAt(st, p, ins.Val.Type(), fv.term(fv.val(ins.Val)), ins.Pos())
 	case *ssa.MakeSlice:
 		et := ins.Type().Underlying().(*types.Slice).Elem()
@@ -885,6 +894,10 @@ func (fv *FnV) loopHead(li *loopInfo, st *State) error {
 	if fv.k != nil {
 		invs = fv.k.LoopInv[li.ordinal]
 	}
+	if li.heldEntry == "" {
+		li.heldEntry = fv.heapGet(st, "G|held")
+	}
+	fv.curHeld = fv.heapGet(st, "G|held")
 	auto := fv.autoInvariants(li)
 	for _, cl := range invs {
 		env := fv.contractEnv(st, fv.entry, nil)
@@ -931,6 +944,7 @@ func (fv *FnV) loopHead(li *loopInfo, st *State) error {
 		}
 		fv.assume(st, t)
 	}
+	fv.curHeld = fv.heapGet(st, "G|held")
 	for _, a := range auto {
 		fv.assume(st, a(fv))
 	}
@@ -989,6 +1003,7 @@ func (fv *FnV) backEdge(li *loopInfo, from *ssa.BasicBlock, st *State) error {
 		}
 		fv.emit(est, "I", fmt.Sprintf("loop%d.%s.preserve", li.ordinal, cl.Label), cl.Props, t, "invariant preserved by the loop body: "+cl.Text, pos)
 	}
+	fv.curHeld = fv.heapGet(est, "G|held")
 	for i, a := range fv.autoInvariants(li) {
 		fv.emit(est, "I", fmt.Sprintf("loop%d.auto%d.preserve", li.ordinal, i), fv.safetyProps(), a(fv), "structural range-loop invariant preserved", pos)
 	}
@@ -1018,6 +1033,16 @@ func (fv *FnV) backEdge(li *loopInfo, from *ssa.BasicBlock, st *State) error {
 // autoInvariants: the structural facts of a `for i := range slice` loop.
 func (fv *FnV) autoInvariants(li *loopInfo) []func(*FnV) string {
 	var out []func(*FnV) string
+	// every iteration leaves the mutexes as it found them
+	if li.mods.comps["G|held"] || li.mods.all {
+		out = append(out, func(fv *FnV) string {
+			cur := fv.curHeld
+			if cur == "" {
+				return "true"
+			}
+			return eq(cur, li.heldEntry)
+		})
+	}
 	for _, ins := range li.header.Instrs {
 		phi, ok := ins.(*ssa.Phi)
 		if !ok || phi.Comment != "rangeindex" {
